@@ -170,6 +170,7 @@ func (w *World) RunCloseWorld() {
 		simrt.ParkTimeout(&w.joinQ, left)
 	}
 	w.TearingDown = true
+	w.watchTeardown()
 	// handlers may legitimately outlive their callers (a Slow handler keeps sleeping after its
 	// connection was closed): inspect only after the longest scripted handler has finished
 	var slow time.Duration
